@@ -15,7 +15,7 @@ ASSUMPTIONS = ["'inside the bracket' is required whenever a sign change exists o
 FLOORS = {"quick": {"scalar_calls": 800, "vector_calls": 150, "sign_change_cases": 500, "steep_sign_change_cases": 100, "no_sign_change_cases": 100,
                     "mixed_vectors": 40, "insitu_contract_evaluations": 100},
           "thorough": {"scalar_calls": 8000, "vector_calls": 1500, "sign_change_cases": 5000, "steep_sign_change_cases": 1000, "no_sign_change_cases": 1000,
-                       "mixed_vectors": 400, "insitu_contract_evaluations": 3000}}
+                       "mixed_vectors": 400, "insitu_contract_evaluations": 1500}}
 FAMILIES = ["linear", "cubic", "tanh", "expm", "poly3roots", "sin", "jump", "tangent", "endpoint", "positive", "sqrtlike"]
 
 
